@@ -20,7 +20,16 @@ impl<T> TooDeeVisitor<T> {
         }
     }
 }
-const FIELDS: &[&str] = &["num_cols", "num_rows", "data"];
+
+/// The field names of a serialised `TooDee`. An identifier enum (rather than `&str` keys) so that
+/// keys which cannot be borrowed from the input (readers, value trees, escaped strings) work too.
+#[derive(serde::Deserialize)]
+#[serde(field_identifier, rename_all = "snake_case")]
+enum Field {
+    NumCols,
+    NumRows,
+    Data,
+}
 
 impl<'de, T> Visitor<'de> for TooDeeVisitor<T>
     where T: Deserialize<'de>
@@ -38,24 +47,23 @@ impl<'de, T> Visitor<'de> for TooDeeVisitor<T>
         let mut num_cols = None;
         let mut num_rows = None;
         let mut data = None;
-        while let Some(key) = visitor.next_key::<&str>()? {
+        while let Some(key) = visitor.next_key::<Field>()? {
             match key {
-                "num_cols" => {
+                Field::NumCols => {
                     if num_cols.is_some() {
                         return Err(de::Error::duplicate_field("num_cols"));
                     }
                     num_cols = Some(visitor.next_value::<usize>()?)
                 },
-                "num_rows" => {
+                Field::NumRows => {
                     if num_rows.is_some() {
                         return Err(de::Error::duplicate_field("num_rows"));
                     }
                     num_rows = Some(visitor.next_value::<usize>()?)
                 },
-                "data" => {
+                Field::Data => {
                     data = Some(visitor.next_value::<Vec<T>>()?)
                 },
-                &_ => return Err(de::Error::unknown_field(key, FIELDS)),
             }
         }
         let num_cols = num_cols.ok_or_else(|| de::Error::missing_field("num_cols"))?;
